@@ -441,21 +441,18 @@ Variable cmp : val -> val -> res Z.
 
 Definition le0 (r : res Z) : bool := match r with Ok c => c <=? 0 | _ => false end.
 
-(* one row of comparison results per element (n^2 calls of [cmp]); transitivity is checked on
-   the rows: for x <= y, every z with y <= z has x <= z *)
+(* For a total preorder the sets {z | x <= z} are nested: x <= y exactly when y has at most as
+   many elements above it as x.  So: count them once per element (n^2 calls of [cmp]) and compare
+   every pair with the counts; no cubic pass. *)
+Definition cnt_le (l : list val) (x : val) : N := N.of_nat (length (filter (fun z => le0 (cmp x z)) l)).
+
 Definition tpo_b (l : list val) : bool :=
-  let rows := map (fun x => (x, map (cmp x) l)) l in
+  let rows := map (fun x => (x, cnt_le l x)) l in
   forallb (fun rx => forallb (fun ry =>
       match cmp (fst rx) (fst ry), cmp (fst ry) (fst rx) with
-      | Ok a, Ok d =>
-          (Z.sgn d =? - Z.sgn a) &&
-          (negb (a <=? 0) || all2b (fun cyz cxz => implb (le0 cyz) (le0 cxz)) (snd ry) (snd rx))
+      | Ok a, Ok d => (Z.sgn d =? - Z.sgn a) && Bool.eqb (a <=? 0) (N.leb (snd ry) (snd rx))
       | _, _ => false
       end) rows) rows.
-
-Lemma all2b_map {A B C} (p : B -> C -> bool) (f : A -> B) (g : A -> C) l :
-  all2b p (map f l) (map g l) = forallb (fun z => p (f z) (g z)) l.
-Proof. induction l as [|a l IH]; cbn; [reflexivity|]. rewrite IH. reflexivity. Qed.
 
 Lemma forallb_map {A B} (p : B -> bool) (f : A -> B) l : forallb p (map f l) = forallb (fun a => p (f a)) l.
 Proof. induction l as [|a l IH]; cbn; [reflexivity|]. rewrite IH. reflexivity. Qed.
@@ -465,23 +462,74 @@ Proof.
   unfold tpo_b. rewrite forallb_map. intros H.
   assert (P : forall x y, In x l -> In y l ->
             exists a d, cmp x y = Ok a /\ cmp y x = Ok d /\ Z.sgn d = - Z.sgn a /\
-              (a <= 0 -> forall z, In z l -> le0 (cmp y z) = true -> le0 (cmp x z) = true)).
+              (a <= 0 <-> (cnt_le l y <= cnt_le l x)%N)).
   { intros x y Hx Hy. rewrite forallb_forall in H. specialize (H x Hx). cbn [fst snd] in H.
     rewrite forallb_map in H. rewrite forallb_forall in H. specialize (H y Hy). cbn [fst snd] in H.
     destruct (cmp x y) as [a| | |]; try discriminate. destruct (cmp y x) as [d| | |]; try discriminate.
-    apply andb_prop in H as [H1 H2]. apply Z.eqb_eq in H1.
+    apply andb_prop in H as [H1 H2]. apply Z.eqb_eq in H1. apply Bool.eqb_prop in H2.
     exists a, d. repeat split; try assumption.
-    intros La z Hz Lyz. apply Bool.orb_true_iff in H2 as [H2|H2].
-    - apply Bool.negb_true_iff in H2. apply Z.leb_gt in H2. lia.
-    - rewrite all2b_map in H2. rewrite forallb_forall in H2. specialize (H2 z Hz).
-      rewrite Lyz in H2. exact H2. }
+    - intros La. apply N.leb_le. rewrite <- H2. apply Z.leb_le. exact La.
+    - intros Lc. apply Z.leb_le. rewrite H2. apply N.leb_le. exact Lc. }
   constructor.
   - intros x y Hx Hy. destruct (P x y Hx Hy) as (a & d & E & _). exists a. exact E.
   - intros x y c d Hx Hy H1 H2. destruct (P x y Hx Hy) as (a & d' & E1 & E2 & S & _). congruence.
   - intros x y z a b c Hx Hy Hz H1 H2 H3 La Lb.
-    destruct (P x y Hx Hy) as (a' & d' & E1 & _ & _ & Tr). rewrite H1 in E1. inversion E1; subst a'.
-    specialize (Tr La z Hz). rewrite H2, H3 in Tr. cbn [le0] in Tr.
-    apply Z.leb_le. apply Tr. apply Z.leb_le. exact Lb.
+    destruct (P x y Hx Hy) as (a' & d1 & E1 & _ & _ & T1). rewrite H1 in E1. inversion E1; subst a'.
+    destruct (P y z Hy Hz) as (b' & d2 & E2 & _ & _ & T2). rewrite H2 in E2. inversion E2; subst b'.
+    destruct (P x z Hx Hz) as (c' & d3 & E3 & _ & _ & T3). rewrite H3 in E3. inversion E3; subst c'.
+    apply T3. apply T1 in La. apply T2 in Lb. lia.
+Qed.
+
+(* ... and complete: the check accepts every total preorder, so the guard of the evaluator IS the
+   hypothesis of the theorems *)
+Lemma filter_len_le {A} (p q : A -> bool) l : (forall z, In z l -> p z = true -> q z = true) ->
+  (length (filter p l) <= length (filter q l))%nat.
+Proof.
+  induction l as [|a l IH]; intros H; cbn; [lia|].
+  assert (IH' : (length (filter p l) <= length (filter q l))%nat) by (apply IH; intros z Hz; apply H; right; exact Hz).
+  destruct (p a) eqn:Pa.
+  - rewrite (H a (or_introl eq_refl) Pa). cbn. lia.
+  - destruct (q a); cbn; lia.
+Qed.
+
+Lemma filter_len_lt {A} (p q : A -> bool) l w : (forall z, In z l -> p z = true -> q z = true) ->
+  In w l -> p w = false -> q w = true -> (length (filter p l) < length (filter q l))%nat.
+Proof.
+  induction l as [|a l IH]; intros H Hw Pw Qw; [destruct Hw|]. cbn.
+  assert (H' : forall z, In z l -> p z = true -> q z = true) by (intros z Hz; apply H; right; exact Hz).
+  pose proof (filter_len_le p q l H') as LE.
+  destruct Hw as [->|Hw].
+  - rewrite Pw, Qw. cbn. lia.
+  - specialize (IH H' Hw Pw Qw). destruct (p a) eqn:Pa.
+    + rewrite (H a (or_introl eq_refl) Pa). cbn. lia.
+    + destruct (q a); cbn; lia.
+Qed.
+
+Theorem tpo_b_complete l : tpo_on cmp l -> tpo_b l = true.
+Proof.
+  intros T. unfold tpo_b. rewrite forallb_map. apply forallb_forall. intros x Hx. cbn [fst snd].
+  rewrite forallb_map. apply forallb_forall. intros y Hy. cbn [fst snd].
+  rewrite (czg_ok cmp l T x y Hx Hy), (czg_ok cmp l T y x Hy Hx).
+  pose proof (czg_anti cmp l T x y Hx Hy) as AS. pose proof (sgn_flip _ _ AS) as (A1 & A2 & A3 & A4).
+  apply andb_true_intro. split; [apply Z.eqb_eq; exact AS|].
+  assert (L : forall u z, In u l -> In z l -> (le0 (cmp u z) = true <-> cz_g cmp u z <= 0)).
+  { intros u z Hu Hz. rewrite (czg_ok cmp l T u z Hu Hz). cbn [le0]. apply Z.leb_le. }
+  unfold cnt_le.
+  destruct (Z.leb_spec (cz_g cmp x y) 0) as [Le|Gt].
+  - (* x <= y: everything above y is above x *)
+    apply Bool.eqb_true_iff. symmetry. apply N.leb_le.
+    assert ((length (filter (fun z => le0 (cmp y z)) l) <= length (filter (fun z => le0 (cmp x z)) l))%nat); [|lia].
+    apply filter_len_le. intros z Hz Hyz. apply (L x z Hx Hz). apply (L y z Hy Hz) in Hyz.
+    apply (czg_trans cmp l T x y z); assumption.
+  - (* y < x: everything above x is above y, and y itself is above y but not above x *)
+    apply Bool.eqb_true_iff. symmetry. apply N.leb_gt.
+    assert ((length (filter (fun z => le0 (cmp x z)) l) < length (filter (fun z => le0 (cmp y z)) l))%nat); [|lia].
+    apply (filter_len_lt _ _ l y).
+    + intros z Hz Hxz. apply (L y z Hy Hz). apply (L x z Hx Hz) in Hxz.
+      apply (czg_trans cmp l T y x z); try assumption. apply A3. lia.
+    + exact Hy.
+    + destruct (le0 (cmp x y)) eqn:E; [|reflexivity]. apply (L x y Hx Hy) in E. lia.
+    + apply (L y y Hy Hy). rewrite (czg_refl cmp l T y Hy). lia.
 Qed.
 End Decide.
 
